@@ -11,7 +11,7 @@ import (
 )
 
 var c03Forced = []string{"group.1col", "group.2col", "group.3col", "group.nullkey", "group.mixedkey", "having", "having.key", "where", "star", "agg.COUNT*", "agg.COUNT", "agg.SUM", "agg.MIN", "agg.MAX", "agg.AVG",
-	"agg.samefn-diffcol", "agg.samefn-samecol", "agg.nullable", "whole.where", "whole.nowhere", "whole.empty", "table.empty"}
+	"agg.samefn-diffcol", "agg.samefn-samecol", "agg.nullable", "whole.where", "whole.nowhere", "whole.empty", "whole.union", "table.empty"}
 
 func init() {
 	fw.Register(&fw.Prop{
@@ -354,6 +354,32 @@ func c03Group(c *fw.Case) {
 			feats = append(feats, "whole.where")
 		}
 		nontrivial = where != nil && len(filtered) > 0 && len(filtered) < len(t.Rows)
+		// two whole-table aggregate queries in one statement: every branch of a
+		// UNION computes its aggregates over its own filtered rows
+		if force == "whole.union" || (force == "" && c.Chance(0.25)) {
+			p2 := pg.Gen()
+			var filtered2 []map[string]any
+			for _, row := range t.Rows {
+				ok, err := ref.EvalPred(p2, ref.Env{Row: row})
+				if err != nil {
+					c.Discard("reference: " + err.Error())
+					return
+				}
+				if ok {
+					filtered2 = append(filtered2, row)
+				}
+			}
+			row2, err := evalItems(nil, filtered2)
+			if err != nil {
+				c.Discard("domain")
+				return
+			}
+			want = append(want, row2)
+			sel := sql[:strings.Index(sql, " FROM t1")]
+			sql = sql + " UNION ALL " + sel + " FROM t1 WHERE " + gen.RenderPred(p2, ro)
+			feats = append(feats, "whole.union")
+			nontrivial = len(filtered2) != len(filtered)
+		}
 	} else {
 		if len(t.Rows) == 0 {
 			feats = append(feats, "table.empty")
